@@ -1,15 +1,29 @@
 //! C08 executor.
-//!   `Q`                                  -> `B<Reader::VERIF_BUF_SIZE>`
-//!   `C <hex input|-> <schedule|-> <op>*` -> `B<size> <value tokens>* [P]`
+//!   `Q`                                    -> `B<Reader::VERIF_BUF_SIZE> R<room offered to the first Read::read>`
+//!   `C <hex input|-> <schedule|-> <op>*`   -> `B<size> <value tokens>* [P]`
+//!   `T<k> <hex input|-> <schedule|-> <op>*`-> the same line; a second Reader (fixed input, delivery variant k) is
+//!                                             alive and used between the operations; if THAT reader returns anything
+//!                                             but what it returns when run alone, the token `X:twin` follows `B<size>`
+//!   `M<k> <hex input|-> <schedule|-> <op>*`-> the same line, produced by a child process whose reader comes from
+//!                                             `rlib_io::make_io!` (real stdin, a pipe): the schedule's chunks are
+//!                                             written one by one, each after the child has drained the pipe; k = 1:
+//!                                             every `I` of the schedule is a real signal (handler without SA_RESTART)
+//!                                             sent while the child is blocked in read(2), i.e. a real EINTR
+//! `B<size>` = the largest room the reader offered to `Read::read` in this case (the hook value when it never read).
 //! schedule: comma separated; `n` = a read delivers the next n input bytes (n >= 1; if the reader
 //! asks for fewer, it gets what fits and the rest of the chunk stays for the next call), `nxk` = k
-//! such chunks, `I` = the read fails with ErrorKind::Interrupted.  After the schedule: Ok(0).
+//! such chunks, `I` = the read fails with ErrorKind::Interrupted, `Ixk` = k such failures in a row.
+//! After the schedule: Ok(0).
 //! ops: i8..i128 isize u8..u128 usize s(String) c(char) t:<ty>,<ty>.. v:<n>:<ty> l(read_line)
-//! L(read_lines) e(is_eof).  A panic ends the script and prints `P`.
+//! L(read_lines) e(is_eof); vt:<n>:<ty>,<ty>.. = read_vec::<(A, B, ..)>(n) and nt:<nested tuple> =
+//! read::<((A, B), C)>() etc., both printed flattened as `t<k>` + components (the model reads the same
+//! tokens left to right); m = move the Reader to another address and overwrite the old place (no output).
+//! A panic ends the script and prints `P`.
 use rlib_io::reader::{Readable, Reader};
 use std::cell::RefCell;
 use std::collections::VecDeque;
 use std::io::Read;
+use std::mem::MaybeUninit;
 use std::rc::Rc;
 
 enum Ev {
@@ -21,6 +35,9 @@ struct Sched {
     data: Vec<u8>,
     pos: usize,
     events: VecDeque<Ev>,
+    /// largest `buf.len()` seen by `read` (0 = never called)
+    max_room: usize,
+    first_room: usize,
 }
 
 struct Src(Rc<RefCell<Sched>>);
@@ -28,6 +45,10 @@ struct Src(Rc<RefCell<Sched>>);
 impl Read for Src {
     fn read(&mut self, buf: &mut [u8]) -> std::io::Result<usize> {
         let mut s = self.0.borrow_mut();
+        if s.max_room == 0 {
+            s.first_room = buf.len();
+        }
+        s.max_room = s.max_room.max(buf.len());
         match s.events.pop_front() {
             None => Ok(0),
             Some(Ev::Intr) => Err(std::io::Error::new(std::io::ErrorKind::Interrupted, "scripted")),
@@ -58,8 +79,9 @@ macro_rules! show_int {
 show_int!(i8, i16, i32, i64, i128, isize, u8, u16, u32, u64, u128, usize);
 
 fn hex_str(s: &str) -> String {
-    // every char came from `u8 as char`, so its code point is the byte
-    s.chars().map(|c| format!("{:02x}", c as u32)).collect()
+    // every char came from `u8 as char`, so its code point is the byte; anything else is shown as `[code point]`
+    // (the model never produces it)
+    s.chars().map(|c| if (c as u32) < 256 { format!("{:02x}", c as u32) } else { format!("[{:x}]", c as u32) }).collect()
 }
 impl Show for String {
     const NAME: &'static str = "s";
@@ -73,6 +95,29 @@ impl Show for char {
         format!("c:{:02x}", *self as u32)
     }
 }
+
+/// components of a (possibly nested) tuple value, left to right
+trait Flat {
+    fn flat(&self, out: &mut Vec<String>);
+    fn sig() -> String;
+}
+macro_rules! flat_scalar {
+    ($($t:ty),*) => { $( impl Flat for $t {
+        fn flat(&self, out: &mut Vec<String>) { out.push(self.show()) }
+        fn sig() -> String { <$t as Show>::NAME.to_string() }
+    } )* };
+}
+flat_scalar!(i8, i16, i32, i64, i128, isize, u8, u16, u32, u64, u128, usize, String, char);
+macro_rules! flat_tuple {
+    ($($t:ident : $i:tt),+) => {
+        impl<$($t: Flat),+> Flat for ($($t,)+) {
+            fn flat(&self, out: &mut Vec<String>) { $( self.$i.flat(out); )+ }
+            fn sig() -> String { format!("({})", [$($t::sig()),+].join(",")) }
+        }
+    };
+}
+flat_tuple!(A: 0, B: 1);
+flat_tuple!(A: 0, B: 1, C: 2);
 
 fn scalar<T: Show>(r: &mut Reader, out: &mut Vec<String>) {
     let v: T = r.read();
@@ -134,6 +179,54 @@ fn tuple(r: &mut Reader, sig: &str, out: &mut Vec<String>) {
     );
 }
 
+fn flat_value<T: Readable + Flat>(r: &mut Reader, out: &mut Vec<String>) {
+    let v: T = r.read();
+    let mut items = Vec::new();
+    v.flat(&mut items);
+    out.push(format!("t{}", items.len()));
+    out.extend(items);
+}
+fn flat_vector<T: Readable + Flat>(r: &mut Reader, n: usize, out: &mut Vec<String>) {
+    let v: Vec<T> = r.read_vec(n);
+    let mut items = Vec::new();
+    for x in &v {
+        x.flat(&mut items);
+    }
+    out.push(format!("t{}", items.len()));
+    out.extend(items);
+}
+
+macro_rules! flat_types {
+    ($sig:expr, $f:ident, $args:tt, $($t:ty);* $(;)?) => {{
+        let mut matched = false;
+        $( if !matched && $sig == <$t as Flat>::sig() { matched = true; $f::<$t> $args; } )*
+        if !matched { bad($sig) }
+    }};
+}
+
+/// vectors of tuples (keep in sync with VEC_TUPLES in checks/c08.py; the op writes the signature without the outer parentheses)
+fn vec_tuple(r: &mut Reader, n: usize, sig: &str, out: &mut Vec<String>) {
+    let sig = format!("({})", sig);
+    let sig = sig.as_str();
+    flat_types!(sig, flat_vector, (r, n, out),
+        (usize, usize);
+        (i32, String);
+        (i64, char, u8);
+        (i128, i128);
+        (u8, i8);
+    );
+}
+
+/// nested tuples (keep in sync with NESTED in checks/c08.py)
+fn nested(r: &mut Reader, sig: &str, out: &mut Vec<String>) {
+    flat_types!(sig, flat_value, (r, out),
+        ((i32, i32), String);
+        (i8, (char, (u64, String)), i16);
+        ((usize, usize), (isize, isize));
+        (String, (u128, char, i128));
+    );
+}
+
 fn one_op(r: &mut Reader, op: &str, out: &mut Vec<String>) {
     match op {
         "l" => out.push(match r.read_line() {
@@ -147,6 +240,13 @@ fn one_op(r: &mut Reader, op: &str, out: &mut Vec<String>) {
         }
         "e" => out.push(format!("e:{}", if r.is_eof() { 1 } else { 0 })),
         _ if op.starts_with("t:") => tuple(r, &op[2..], out),
+        _ if op.starts_with("nt:") => nested(r, &op[3..], out),
+        _ if op.starts_with("vt:") => {
+            let mut it = op[3..].splitn(2, ':');
+            let n: usize = vh::p(it.next().unwrap());
+            let sig = it.next().unwrap_or_else(|| bad(op));
+            vec_tuple(r, n, sig, out)
+        }
         _ if op.starts_with("v:") => {
             let mut it = op[2..].splitn(2, ':');
             let n: usize = vh::p(it.next().unwrap());
@@ -172,6 +272,11 @@ fn schedule(s: &str) -> VecDeque<Ev> {
     for t in s.split(',') {
         if t == "I" {
             q.push_back(Ev::Intr);
+        } else if let Some(k) = t.strip_prefix("Ix") {
+            let k: usize = vh::p(k);
+            for _ in 0..k {
+                q.push_back(Ev::Intr);
+            }
         } else if let Some((n, k)) = t.split_once('x') {
             let (n, k): (usize, usize) = (vh::p(n), vh::p(k));
             for _ in 0..k {
@@ -184,35 +289,337 @@ fn schedule(s: &str) -> VecDeque<Ev> {
     q
 }
 
-fn main() {
-    vh::serve(|t| {
-        let size = Reader::VERIF_BUF_SIZE;
-        if t[0] == "Q" {
-            return format!("B{}", size);
+fn checked_schedule(s: &str, len: usize) -> VecDeque<Ev> {
+    let events = schedule(s);
+    let total: usize = events.iter().map(|e| if let Ev::Data(n) = e { *n } else { 0 }).sum();
+    if total != len || events.iter().any(|e| matches!(e, Ev::Data(0))) {
+        eprintln!("harness: schedule delivers {} bytes, input has {}", total, len);
+        std::process::exit(3);
+    }
+    events
+}
+
+// ------------------------------------------------------------------ a Reader that can be moved for real
+/// The Reader lives in one of two heap blocks.  `relocate` moves it (a plain Rust move: bitwise copy, the old
+/// place is dead afterwards) into the other block and overwrites the old block, so anything in the Reader that
+/// still points into its former location (cursor pointers into the inline buffer) reads 0xA5 garbage.
+struct Home {
+    mem: [Box<MaybeUninit<Reader<'static>>>; 2],
+    cur: usize,
+    shared: Rc<RefCell<Sched>>,
+}
+
+impl Home {
+    fn new(data: Vec<u8>, events: VecDeque<Ev>) -> Home {
+        let shared = Rc::new(RefCell::new(Sched { data, pos: 0, events, max_room: 0, first_room: 0 }));
+        let mut h = Home { mem: [Box::new(MaybeUninit::uninit()), Box::new(MaybeUninit::uninit())], cur: 0, shared: shared.clone() };
+        h.mem[0].write(Reader::new(Box::new(Src(shared))));
+        h
+    }
+    fn reader(&mut self) -> &mut Reader<'static> {
+        // SAFETY: mem[cur] always holds the live Reader
+        unsafe { self.mem[self.cur].assume_init_mut() }
+    }
+    fn relocate(&mut self) {
+        let (from, to) = (self.cur, 1 - self.cur);
+        // SAFETY: mem[from] holds the Reader; after the read it is treated as uninitialised (moved out)
+        let r: Reader<'static> = unsafe { self.mem[from].assume_init_read() };
+        self.mem[to].write(r);
+        // SAFETY: writing bytes into a MaybeUninit block of exactly this size
+        unsafe { std::ptr::write_bytes(self.mem[from].as_mut_ptr() as *mut u8, 0xA5, std::mem::size_of::<Reader<'static>>()) };
+        self.cur = to;
+    }
+    fn room(&self, hook: usize) -> usize {
+        let m = self.shared.borrow().max_room;
+        if m == 0 {
+            hook
+        } else {
+            m
         }
-        if t[0] != "C" || t.len() < 3 {
-            bad(t[0]);
+    }
+}
+
+impl Drop for Home {
+    fn drop(&mut self) {
+        // SAFETY: mem[cur] holds the live Reader, dropped exactly once
+        unsafe { self.mem[self.cur].assume_init_drop() }
+    }
+}
+
+// ------------------------------------------------------------------ the second Reader of the `T` cases
+const TWIN_INPUT: &[u8] = b"  -12345 abc\r\nline two\rX\n 77 q\n";
+const TWIN_OPS: [&str; 7] = ["i32", "s", "l", "l", "u8", "c", "e"];
+
+fn twin_home(k: usize) -> Home {
+    let n = TWIN_INPUT.len();
+    let events: VecDeque<Ev> = match k % 3 {
+        0 => vec![Ev::Data(n)].into(),
+        1 => (0..n).map(|_| Ev::Data(1)).collect(),
+        _ => vec![Ev::Data(5), Ev::Intr, Ev::Data(n - 5)].into(),
+    };
+    Home::new(TWIN_INPUT.to_vec(), events)
+}
+
+struct Twin {
+    k: usize,
+    home: Home,
+    next: usize,
+    alone: Vec<Vec<String>>,
+    ok: bool,
+}
+
+impl Twin {
+    fn new(k: usize) -> Twin {
+        // what the twin's script returns when its Reader is the only one alive
+        let mut solo = twin_home(k);
+        let alone: Vec<Vec<String>> = TWIN_OPS
+            .iter()
+            .map(|op| {
+                let mut v = Vec::new();
+                if vh::guarded(|| one_op(solo.reader(), op, &mut v)).is_none() {
+                    v.push("P".to_string());
+                }
+                v
+            })
+            .collect();
+        drop(solo);
+        Twin { k, home: twin_home(k), next: 0, alone, ok: true }
+    }
+    fn step(&mut self) {
+        let mut v = Vec::new();
+        let op = TWIN_OPS[self.next];
+        if vh::guarded(|| one_op(self.home.reader(), op, &mut v)).is_none() {
+            v.push("P".to_string());
         }
-        let data = unhex(t[1]);
-        let events = schedule(t[2]);
-        let total: usize = events.iter().map(|e| if let Ev::Data(n) = e { *n } else { 0 }).sum();
-        if total != data.len() || events.iter().any(|e| matches!(e, Ev::Data(0))) {
-            eprintln!("harness: schedule delivers {} bytes, input has {}", total, data.len());
-            std::process::exit(3);
+        if v != self.alone[self.next] {
+            self.ok = false;
         }
-        let shared = Rc::new(RefCell::new(Sched { data, pos: 0, events }));
-        let mut reader = Reader::new(Box::new(Src(shared.clone())));
-        let mut out: Vec<String> = vec![format!("B{}", size)];
-        for op in &t[3..] {
-            let mut vals = Vec::new();
-            match vh::guarded(|| one_op(&mut reader, op, &mut vals)) {
-                Some(()) => out.extend(vals),
-                None => {
-                    out.push("P".to_string());
-                    break;
+        self.next += 1;
+        if self.next == TWIN_OPS.len() {
+            self.home = twin_home(self.k);
+            self.next = 0;
+        }
+    }
+}
+
+/// `C` and `T<k>` lines
+fn in_process(t: &[&str], twin: Option<usize>) -> String {
+    let hook = Reader::VERIF_BUF_SIZE;
+    let data = unhex(t[1]);
+    let events = checked_schedule(t[2], data.len());
+    let mut twin = twin.map(Twin::new);
+    let mut home = Home::new(data, events);
+    let mut vals: Vec<String> = Vec::new();
+    for op in &t[3..] {
+        if let Some(tw) = twin.as_mut() {
+            tw.step();
+        }
+        if *op == "m" {
+            home.relocate();
+            if let Some(tw) = twin.as_mut() {
+                tw.home.relocate();
+            }
+            continue;
+        }
+        let mut v = Vec::new();
+        match vh::guarded(|| one_op(home.reader(), op, &mut v)) {
+            Some(()) => vals.extend(v),
+            None => {
+                vals.push("P".to_string());
+                break;
+            }
+        }
+    }
+    let mut out = vec![format!("B{}", home.room(hook))];
+    if let Some(tw) = twin.as_mut() {
+        tw.step();
+        if !tw.ok {
+            out.push("X:twin".to_string());
+        }
+    }
+    out.extend(vals);
+    out.join(" ")
+}
+
+// ------------------------------------------------------------------ `M<k>`: the reader of make_io!, in a child process
+#[cfg(target_os = "linux")]
+mod sys {
+    extern "C" {
+        pub fn signal(signum: i32, handler: usize) -> usize;
+        pub fn siginterrupt(sig: i32, flag: i32) -> i32;
+        pub fn kill(pid: i32, sig: i32) -> i32;
+        pub fn ioctl(fd: i32, req: u64, ...) -> i32;
+    }
+    pub const SIGUSR1: i32 = 10;
+    pub const FIONREAD: u64 = 0x541B;
+    pub extern "C" fn on_signal(_: i32) {}
+}
+
+/// child: `<exe> --child <k> <op>*`; input on stdin; prints `R` first (handler installed), the observation last
+fn child(args: &[String]) {
+    std::panic::set_hook(Box::new(|_| {}));
+    #[cfg(target_os = "linux")]
+    if args[0] == "1" {
+        // SAFETY: installs an empty handler for SIGUSR1 and switches SA_RESTART off for it
+        unsafe {
+            sys::signal(sys::SIGUSR1, sys::on_signal as *const () as usize);
+            sys::siginterrupt(sys::SIGUSR1, 1);
+        }
+    }
+    println!("R");
+    // what a user of the library writes (the macros of rlib_io call each other by their bare names)
+    #[allow(unused_imports)]
+    use rlib_io::*;
+    rlib_io::make_io!(reader, writer);
+    let mut out: Vec<String> = vec![format!("B{}", Reader::VERIF_BUF_SIZE)];
+    for op in &args[1..] {
+        if op == "m" {
+            // a plain move of the binding, as `make_output_macro_!` itself does
+            let moved = reader;
+            reader = moved;
+            continue;
+        }
+        let mut v = Vec::new();
+        match vh::guarded(|| one_op(&mut reader, op, &mut v)) {
+            Some(()) => out.extend(v),
+            None => {
+                out.push("P".to_string());
+                break;
+            }
+        }
+    }
+    println!("{}", out.join(" "));
+}
+
+#[cfg(target_os = "linux")]
+fn via_make_io(t: &[&str], k: usize) -> String {
+    use std::io::{BufRead, BufReader, Write};
+    use std::os::unix::io::AsRawFd;
+    use std::process::{Command, Stdio};
+    use std::time::{Duration, Instant};
+    let data = unhex(t[1]);
+    let events = checked_schedule(t[2], data.len());
+    let exe = std::env::current_exe().unwrap();
+    let mut attempt = 0;
+    let mut ch = loop {
+        match Command::new(&exe).arg("--child").arg(k.to_string()).args(&t[3..]).stdin(Stdio::piped()).stdout(Stdio::piped()).spawn() {
+            Ok(ch) => break ch,
+            Err(e) if attempt < 20 => {
+                // a busy machine may be out of processes for a moment
+                eprintln!("harness: spawn failed ({}), retrying", e);
+                attempt += 1;
+                std::thread::sleep(Duration::from_millis(250));
+            }
+            Err(e) => {
+                eprintln!("harness: cannot start the child process: {}", e);
+                std::process::exit(3);
+            }
+        }
+    };
+    let pid = ch.id() as i32;
+    let mut to = ch.stdin.take().unwrap();
+    let mut from = BufReader::new(ch.stdout.take().unwrap());
+    let mut ready = String::new();
+    from.read_line(&mut ready).unwrap();
+    if ready.trim() != "R" {
+        let _ = ch.wait();
+        return format!("B{} X:child-start", Reader::VERIF_BUF_SIZE);
+    }
+    // the rest of the child's output is collected concurrently (it may exceed the pipe capacity)
+    let collector = std::thread::spawn(move || {
+        let mut s = String::new();
+        let _ = from.read_to_string(&mut s);
+        s
+    });
+    let fd = to.as_raw_fd();
+    let stat = format!("/proc/{}/stat", pid);
+    // results must not depend on any of these timings: every wait gives up after a while
+    let mut gone = false;
+    let wait = |ch: &mut std::process::Child, need_blocked: bool, gone: &mut bool| {
+        let t0 = Instant::now();
+        while !*gone && t0.elapsed() < Duration::from_secs(5) {
+            if let Ok(Some(_)) = ch.try_wait() {
+                *gone = true;
+                break;
+            }
+            let mut pending: i32 = 0;
+            // SAFETY: FIONREAD stores one int
+            let rc = unsafe { sys::ioctl(fd, sys::FIONREAD, &mut pending as *mut i32) };
+            let drained = rc != 0 || pending == 0;
+            let blocked = !need_blocked
+                || std::fs::read_to_string(&stat)
+                    .ok()
+                    .and_then(|s| s.rsplit_once(')').map(|(_, r)| r.trim_start().starts_with('S')))
+                    .unwrap_or(true);
+            if drained && blocked {
+                break;
+            }
+            std::thread::sleep(Duration::from_micros(40));
+        }
+    };
+    let mut pos = 0;
+    for e in events {
+        if gone {
+            break;
+        }
+        match e {
+            Ev::Data(n) => {
+                if to.write_all(&data[pos..pos + n]).and_then(|_| to.flush()).is_err() {
+                    gone = true; // the child finished its script and closed stdin
+                }
+                pos += n;
+                wait(&mut ch, false, &mut gone);
+            }
+            Ev::Intr => {
+                if k == 1 {
+                    wait(&mut ch, true, &mut gone);
+                    if !gone {
+                        // SAFETY: plain kill(2) of our own child (not yet reaped, so the pid cannot have been reused)
+                        unsafe { sys::kill(pid, sys::SIGUSR1) };
+                    }
                 }
             }
         }
-        out.join(" ")
+    }
+    drop(to);
+    let status = ch.wait().unwrap();
+    let text = collector.join().unwrap();
+    match text.lines().last() {
+        Some(l) if status.success() && l.starts_with('B') => l.to_string(),
+        _ => format!("B{} X:child-{:?}", Reader::VERIF_BUF_SIZE, status.code()),
+    }
+}
+
+#[cfg(not(target_os = "linux"))]
+fn via_make_io(t: &[&str], _k: usize) -> String {
+    in_process(t, None)
+}
+
+fn main() {
+    let args: Vec<String> = std::env::args().collect();
+    if args.len() >= 3 && args[1] == "--child" {
+        child(&args[2..]);
+        return;
+    }
+    vh::serve(|t| {
+        let hook = Reader::VERIF_BUF_SIZE;
+        if t[0] == "Q" {
+            let mut probe = Home::new(Vec::new(), VecDeque::new());
+            let _ = probe.reader().is_eof();
+            let room = probe.shared.borrow().first_room;
+            return format!("B{} R{}", hook, room);
+        }
+        if t.len() < 3 {
+            bad(t[0]);
+        }
+        if t[0] == "C" {
+            in_process(t, None)
+        } else if let Some(k) = t[0].strip_prefix('T') {
+            in_process(t, Some(vh::p(k)))
+        } else if let Some(k) = t[0].strip_prefix('M') {
+            via_make_io(t, vh::p(k))
+        } else {
+            bad(t[0])
+        }
     });
 }
